@@ -14,6 +14,7 @@ import (
 	"net/http/httptest"
 	"net/url"
 	"os"
+	"path"
 	"path/filepath"
 	"regexp"
 	"runtime/debug"
@@ -57,6 +58,7 @@ type World struct {
 	reqN   int
 	cancelNext bool
 	abortedReq bool
+	addressed  map[string]bool
 	lastGCBusy bool
 	sessions map[int]*MSess
 	props  []string // properties this run's generic oracles speak for in addition to their own
@@ -156,7 +158,7 @@ type reqSpec struct {
 }
 
 func routeOf(method, p string) string {
-	el := strings.Split(strings.Trim(p, "/"), "/")
+	el := strings.Split(strings.Trim(path.Clean("/"+p), "/"), "/")
 	n := len(el)
 	switch {
 	case n == 1 && el[0] == "v2":
@@ -191,6 +193,14 @@ func normPanic(s string) string {
 func (w *World) do(rs reqSpec) *Resp {
 	w.reqN++
 	w.x.out.Requests++
+	for _, rp := range rs.repos {
+		if reRepo.MatchString(rp) {
+			if w.addressed == nil {
+				w.addressed = map[string]bool{}
+			}
+			w.addressed[rp] = true
+		}
+	}
 	u := &url.URL{Path: rs.path, RawQuery: rs.query}
 	if up, err := url.PathUnescape(rs.path); err == nil {
 		u.Path = up
